@@ -307,6 +307,9 @@ class Model:
             if obj.size > 1:
                 raise ValueError('Incorrect function dimension.')
 
+        if ambset is not None and ambset.model is not self:
+            raise ValueError('Models mismatch.')
+
         self.obj = obj
         self.obj_ambiguity = ambset
         self.sign = 1
@@ -338,6 +341,9 @@ class Model:
         if not isinstance(obj, (Real, PiecewiseConvex)):
             if obj.size > 1:
                 raise ValueError('Incorrect function dimension.')
+
+        if ambset is not None and ambset.model is not self:
+            raise ValueError('Models mismatch.')
 
         self.obj = obj
         self.obj_ambiguity = ambset
